@@ -226,3 +226,93 @@ Proof.
     apply bool_eq_iff. rewrite !l_mem_In. apply In_uniq.
   - rewrite uniq_filter. reflexivity.
 Qed.
+
+(* ---- predicates ------------------------------------------------------------------------------------ *)
+Lemma forallb_same {A} (f : A -> bool) l1 l2 : (forall x, In x l1 <-> In x l2) -> forallb f l1 = forallb f l2.
+Proof.
+  intros H. apply bool_eq_iff. rewrite !forallb_forall. split; intros G x Hx; apply G; apply H; exact Hx.
+Qed.
+
+Lemma issubset_ok s o : Inv s ->
+  (if length (o_elems o) <? m_len s then false else forallb (fun k => opd_mem k o) (d_keys (imap s)))
+  = forallb (fun x => opd_mem x o) (m_live s).
+Proof.
+  intros [H _]. assert (E : forallb (fun k => opd_mem k o) (d_keys (imap s)) = forallb (fun x => opd_mem x o) (m_live s)).
+  { apply forallb_same. intros x. rewrite <- d_mem_keys. symmetry. apply Inv0_keys. exact H. }
+  destruct (length (o_elems o) <? m_len s) eqn:C; [|exact E].
+  apply Nat.ltb_lt in C. unfold m_len in C. rewrite (inv_len s H) in C.
+  destruct (forallb (fun x => opd_mem x o) (m_live s)) eqn:F; [|reflexivity]. exfalso.
+  rewrite forallb_forall in F.
+  assert (I : incl (m_live s) (o_elems o)) by (intros x Hx; apply l_mem_In; apply F; exact Hx).
+  pose proof (NoDup_incl_length (Inv0_nodup s H) I). lia.
+Qed.
+
+(* ---- snapshot and digests ---------------------------------------------------------------------------- *)
+Lemma all_ok_map_ok {A B} (f : A -> res B) (g : A -> B) l :
+  (forall x, In x l -> f x = Ok (g x)) -> all_ok (map f l) = Ok (map g l).
+Proof.
+  induction l as [|x l IH]; intros H; simpl; [reflexivity|].
+  rewrite (H x (or_introl eq_refl)). rewrite IH; [reflexivity|]. intros y Hy. apply H. right. exact Hy.
+Qed.
+
+Lemma map_nth_seq (l : list K) : map (fun i => nth i l 0) (seq 0 (length l)) = l.
+Proof.
+  induction l as [|x l IH]; [reflexivity|]. simpl. f_equal. rewrite <- seq_shift, map_map. exact IH.
+Qed.
+
+Lemma get_all_ok s : Inv0 s -> m_get_all s = Ok (m_live s).
+Proof.
+  intros H. unfold m_get_all, m_len. rewrite (inv_len s H).
+  rewrite (all_ok_map_ok _ (fun i => nth i (m_live s) 0)).
+  - rewrite map_nth_seq. reflexivity.
+  - intros i Hi. apply in_seq in Hi. apply (getitem_ok s _ i H).
+    unfold norm_index. replace (0 <=? Z.of_nat i)%Z with true by (symmetry; apply Z.leb_le; lia).
+    replace (Z.of_nat i <? Z.of_nat (length (m_live s)))%Z with true by (symmetry; apply Z.ltb_lt; lia).
+    simpl. rewrite Nat2Z.id. reflexivity.
+Qed.
+
+Lemma get_all_neg_ok s : Inv0 s -> m_get_all_neg s = Ok (m_live s).
+Proof.
+  intros H. unfold m_get_all_neg, m_len. rewrite (inv_len s H).
+  rewrite (all_ok_map_ok _ (fun i => nth i (m_live s) 0)).
+  - rewrite map_nth_seq. reflexivity.
+  - intros i Hi. apply in_seq in Hi. apply (getitem_ok s _ i H).
+    unfold norm_index.
+    replace (0 <=? Z.of_nat i - Z.of_nat (length (m_live s)))%Z with false by (symmetry; apply Z.leb_gt; lia).
+    replace (Z.of_nat i - Z.of_nat (length (m_live s)) <? 0)%Z with true by (symmetry; apply Z.ltb_lt; lia).
+    replace (- Z.of_nat (length (m_live s)) <=? Z.of_nat i - Z.of_nat (length (m_live s)))%Z
+      with true by (symmetry; apply Z.leb_le; lia).
+    simpl. f_equal. lia.
+Qed.
+
+Lemma index_positions : forall B A, NoDup (A ++ B) ->
+  map (fun x => l_index x (A ++ B)) B = map Some (seq (length A) (length B)).
+Proof.
+  induction B as [|x B IH]; intros A ND; [reflexivity|]. simpl. f_equal.
+  - apply l_index_app. apply NoDup_remove_2 in ND. intros Hin. apply ND. apply in_or_app. left. exact Hin.
+  - specialize (IH (A ++ [x])). rewrite <- app_assoc in IH. simpl in IH.
+    rewrite app_length in IH. simpl in IH. replace (length A + 1) with (S (length A)) in IH by lia.
+    apply IH. exact ND.
+Qed.
+
+Lemma index_all_ok s : Inv0 s -> m_index_all s = Ok (seq 0 (length (m_live s))).
+Proof.
+  intros H. unfold m_index_all.
+  pose proof (index_positions (m_live s) [] (Inv0_nodup s H)) as P. simpl in P.
+  assert (G : forall l (js : list nat), map (fun x => l_index x (m_live s)) l = map Some js ->
+              all_ok (map (m_index s) l) = Ok js).
+  { induction l as [|x l IH]; intros [|j js] E; simpl in E; try discriminate; [reflexivity|].
+    injection E as E1 E2. simpl. rewrite (index_ok s x H), E1. rewrite (IH js E2). reflexivity. }
+  apply G. exact P.
+Qed.
+
+Lemma snapshot_ok s : Inv0 s ->
+  m_snapshot s = Ok (RSnap (m_live s) (m_live s) (m_live s) (rev (m_live s)) (seq 0 (length (m_live s)))).
+Proof.
+  intros H. unfold m_snapshot. rewrite (get_all_ok s H), (get_all_neg_ok s H), (index_all_ok s H). reflexivity.
+Qed.
+
+Lemma obs_ok dg s r : Inv0 s -> m_obs dg s r = spec_obs dg (m_live s) r.
+Proof.
+  intros H. unfold m_obs, spec_obs, m_len. rewrite (inv_len s H), (get_all_ok s H). reflexivity.
+Qed.
